@@ -18,7 +18,7 @@ from mc.core.util import call
 
 ID = "C20"
 LEVEL = "model_checking"
-REQUIRED_OUTCOMES = ["resolved:direct", "resolved:compose", "resolved:legacy-subdir", "compose-preferred-over-direct",
+REQUIRED_OUTCOMES = ["path-reused-for-another-tree", "resolved:direct", "resolved:compose", "resolved:legacy-subdir", "compose-preferred-over-direct",
                      "accessor:equals-direct-load", "accessor:legacy-name", "accessor:cached", "missing:RuntimeError-names-location",
                      "undecodable:RuntimeError-names-file", "listdir-permutation"]
 
@@ -109,10 +109,21 @@ def run_config(config, sequence, listdir_perm=None, slash=False):
     """Open the compose and read the accessors in `sequence`; report everything observable."""
     import productmd.common
     import productmd.compose as pc
-    root = tempfile.mkdtemp(prefix="c20-")
+    top = tempfile.mkdtemp(prefix="c20-")
+    root = os.path.join(top, config.get("rootname") or "compose-root")
+    os.makedirs(root)
     real_listdir = os.listdir
     real_open = open
     try:
+        if config.get("previous"):
+            # the SAME path held another compose before: open it, read everything, then replace the tree
+            make_tree(root, config["previous"])
+            prev = call(__import__("productmd.compose").compose.Compose, root)
+            if prev[0] == "ok":
+                for acc_name in ACCESSORS:
+                    call(lambda: getattr(prev[1], acc_name))
+            shutil.rmtree(root)
+            os.makedirs(root)
         make_tree(root, config)
 
         def listdir(p="."):
@@ -171,7 +182,7 @@ def run_config(config, sequence, listdir_perm=None, slash=False):
             os.listdir = real_listdir
             del productmd.common.open
     finally:
-        shutil.rmtree(root, ignore_errors=True)
+        shutil.rmtree(top, ignore_errors=True)
 
 
 def judge(config, sequence, o):
@@ -252,6 +263,7 @@ def units(tier, seed):
         us.append(("perm", loc))
     for k in range(4):
         us.append(("sequences", k, 4 if tier == "thorough" else 3))
+    us.append(("retarget",))
     return us
 
 
@@ -290,7 +302,9 @@ def run_unit(unit, acc):
         for files in pats:
             for slash in (False, True):
                 for seq in BOTH_ORDERS:
-                    _check({"config": {"locs": {loc: files}, "siblings": ["work", "logs"]}, "sequence": seq, "slash": slash}, acc, "single:" + loc)
+                    _check({"config": {"locs": {loc: files}, "siblings": ["work", "logs"],
+                                       "rootname": "Fedora-20-[updates]-*?" if slash else None}, "sequence": seq, "slash": slash},
+                           acc, "single:" + loc)
         acc.sample({"layout": {loc: pats[-1]}, "sequence": BOTH_ORDERS[0], "trailing_slash": True}, limit=1)
     elif k == "multi":
         combo = unit[1]
@@ -322,6 +336,19 @@ def run_unit(unit, acc):
                 for perm in itertools.permutations(range(n)):
                     _check({"config": config, "sequence": ACCESSORS, "perm": list(perm)}, acc, "perm")
                     acc.outcome("listdir-permutation")
+    elif k == "retarget":
+        trees = [{"locs": {"direct": REDUCED_PATTERNS[0]}}, {"locs": {"direct": REDUCED_PATTERNS[1]}}, {"locs": {"compose": REDUCED_PATTERNS[0]}},
+                 {"locs": {"sub": REDUCED_PATTERNS[3]}}, {"locs": {"direct": REDUCED_PATTERNS[2]}}, {"locs": {"compose": REDUCED_PATTERNS[2]}},
+                 {"locs": {"direct": []}}]
+        for before in trees:
+            for after in trees:
+                if before is after:
+                    continue
+                config = dict(after, siblings=[], previous=dict(before, siblings=[]))
+                for seq in BOTH_ORDERS:
+                    _check({"config": config, "sequence": seq}, acc, "retarget")
+                    acc.outcome("path-reused-for-another-tree")
+        acc.sample({"first_tree": trees[1]["locs"], "then_same_path_holds": trees[0]["locs"]}, limit=1)
     else:
         _, part, n = unit
         seqs = all_sequences(n)
@@ -349,7 +376,8 @@ def describe(tier):
                 "(composeinfo; images and rpms under none / current / legacy / both names; modules) x trailing slash; (b) every "
                 "combination of 2 and 3 coexisting layouts x 5 presence patterns per location x trailing slash; (c) one file at a time "
                 "replaced by garbage / empty / truncated text; (d) every permutation of os.listdir's answer for roots with 3 unrelated "
-                "sibling directories; on each configuration all four accessors twice in both orders, and on 4 configurations every "
+                "sibling directories; (e) root directory names with glob metacharacters; (f) 42 ordered pairs of different trees at the SAME "
+                "path within one process (the first one opened and read before the tree is replaced); on each configuration all four accessors twice in both orders, and on 4 configurations every "
                 "accessor sequence of length <= %d.  Every file carries a distinct compose id so the source of a loaded object is "
                 "identifiable.  Oracle (decision-list model): compose/ wins when it has composeinfo.json, otherwise any location holding a "
                 "metadata directory; all accessors read from the resolved location; dumps() equals a direct load of that file; repeated "
